@@ -329,7 +329,18 @@ fn expr_text_wrapped(e: &Expr, ctx: &str, words: bool, open: &str, size_each: bo
                 _ => " EXCEPT ",
             };
         }
-        s += &if size_each { format!("SIZE ({})", opnd(o)) } else { opnd(o) };
+        let t = if size_each { format!("SIZE ({})", opnd(o)) } else { opnd(o) };
+        // parentheses around an element are neutral (X.680 50.1: Elements ::= ... | "(" ElementSetSpec ")")
+        let wrap = match open {
+            "paren-each" => true,
+            "paren-last" => i + 1 == e.operands.len(),
+            "paren-first" => i == 0,
+            _ => false,
+        };
+        s += &if wrap { format!("({t})") } else { t };
+    }
+    if open == "paren-all" {
+        s = format!("({s})");
     }
     s
 }
@@ -666,6 +677,40 @@ impl Prop for C04 {
                 }
             }
         }
+        // elements in parentheses of their own (last / first / each operand, the whole expression), with and without marker
+        for e in e1.iter().chain(e2.iter()) {
+            for open in ["paren-last", "paren-first", "paren-each", "paren-all"] {
+                if e.operands.len() == 1 && open != "paren-last" && open != "paren-all" {
+                    continue;
+                }
+                // `((a | b))` — a whole multi-operand expression in parentheses — is a syntax error in the pinned lexer (a loud
+                // rejection of valid notation, recorded in hunt/ and DESIGN 10.5b, not a statement about emitted bounds)
+                if e.operands.len() > 1 && open == "paren-all" {
+                    continue;
+                }
+                for x in [false, true] {
+                    for ctx in ["assign", "component"] {
+                        let mut c = mk(vec![with_ext(e, x)], "INTEGER", ctx, false, false);
+                        c.open = open.into();
+                        out.push(c);
+                    }
+                }
+            }
+        }
+        for ty in ["OCTETSTRING", "SEQOF"] {
+            for e in exprs(&opsz, 1).iter().chain(exprs(&opsz, 2).iter()) {
+                for open in ["paren-last", "paren-all"] {
+                    if e.operands.len() > 1 && open == "paren-all" {
+                        continue;
+                    }
+                    for (x, inner) in [(false, false), (true, false), (true, true)] {
+                        let mut c = mk(vec![with_ext(e, x)], ty, "assign", inner, false);
+                        c.open = open.into();
+                        out.push(c);
+                    }
+                }
+            }
+        }
         // SEQUENCE OF elements whose type is a reference
         for e in e1.iter().chain(e2.iter()) {
             out.push(mk(vec![e.clone()], "INTEGER", "reference-element", false, false));
@@ -977,18 +1022,19 @@ impl Prop for C04 {
             let key = if prec_possible && right_match { prec_key.clone() } else { format!("{kbase}|kind={}", if excludes { "excludes" } else if gbits & !range_bits(elo, ehi) != 0 && range_bits(elo, ehi) & !gbits == 0 { "wider" } else { "differs" }) };
             discs.push(Disc::new(key, format!("expected PER-visible bound {} got {}{}\n{src}\n{gen}", show(elo, ehi), show(glo, ghi), if excludes { " — EXCLUDES permitted values" } else { "" })));
         }
+        let ctxo = if c.open.is_empty() { c.ctx.clone() } else { format!("{}+open-{}", c.ctx, c.open) };
         // extensible flag: only observable when a bound is emitted (an unbounded extensible constraint has no annotation to carry it)
         if got.is_some() {
             let mixed_serial = c.cons.len() == 2 && c.cons[0].ext != c.cons[1].ext;
             if gext != want_ext && !mixed_serial {
-                discs.push(Disc::new(format!("range|ext-flag|ctx={}|type={}|n={}|want={want_ext}|inner={}|except={}", c.ctx, c.ty, c.cons.len(), c.ext_inner, c.cons.iter().any(|e| e.ext && e.ops.contains(&'E'))), format!("extensible flag {gext}, marker present {want_ext}\n{src}\n{gen}")));
+                discs.push(Disc::new(format!("range|ext-flag|ctx={}|type={}|n={}|want={want_ext}|inner={}|except={}", ctxo, c.ty, c.cons.len(), c.ext_inner, c.cons.iter().any(|e| e.ext && e.ops.contains(&'E'))), format!("extensible flag {gext}, marker present {want_ext}\n{src}\n{gen}")));
             }
         } else if want_ext && unsigned && !(c.cons.len() == 2 && c.cons[0].ext != c.cons[1].ext) {
             // a size constraint whose effective range is the whole of 0..MAX still carries its marker: the
             // generator writes `size("0..", extensible)` for it, so a missing annotation loses the extension bit
             // (for INTEGER there is no annotation that could carry the marker of an unbounded constraint)
             let except = c.cons.iter().any(|e| e.ext && (e.all_except || e.ops.contains(&'E')));
-            discs.push(Disc::new(format!("range|ext-flag|ctx={}|type={}|n={}|want=true|inner={}|unbounded-size-not-annotated|except={except}", c.ctx, c.ty, c.cons.len(), c.ext_inner), format!("extensible size constraint without annotation, marker present\n{src}\n{gen}")));
+            discs.push(Disc::new(format!("range|ext-flag|ctx={}|type={}|n={}|want=true|inner={}|unbounded-size-not-annotated|except={except}", ctxo, c.ty, c.cons.len(), c.ext_inner), format!("extensible size constraint without annotation, marker present\n{src}\n{gen}")));
         }
         CaseResult { discs, nontrivial: true, outcome: format!("ok:{}:{}:n{}", c.ctx, c.ty, c.cons.iter().map(|e| e.operands.len()).sum::<usize>()), skipped: None }
     }
